@@ -126,6 +126,16 @@ func main() {
 			for _, o := range ac.obs {
 				nAlt++
 				if o.st != Discharged {
+					// the same construct already reported by the primary view is not reported twice
+					dup := false
+					for _, p := range c.obs {
+						if p.Clause == o.Clause && p.Key == o.Key && p.st != Discharged {
+							dup = true
+						}
+					}
+					if dup {
+						continue
+					}
 					o.Key = "GOARCH=arm64:" + o.Key
 					c.obs = append(c.obs, o)
 				}
